@@ -6,7 +6,7 @@ use crate::Ctx;
 use flexi_logger::{LogSpecification, Logger, WriteMode};
 use log::Record;
 
-fn mode_of(m: &str) -> WriteMode {
+pub fn mode_of(m: &str) -> WriteMode {
     let p: Vec<&str> = m.split(':').collect();
     match p[0] {
         "direct" => WriteMode::Direct,
